@@ -407,3 +407,51 @@ def trip_count(ivars, guard):
     if d == -1 and op == ">=" and bound == "1":
         return entry
     return None
+
+
+def storage_root(cx, func, node, depth=0):
+    """Name of the local/parameter that owns the storage an expression points into or selects from: follows subscripts,
+    member selection, * and &, pointer arithmetic, single-definition locals, and walking pointers (locals whose every
+    value is derived from one root, apart from stepping themselves).  None if undetermined."""
+    if depth > 12:
+        return None
+    n = strip(node, casts=True)
+    k = n["kind"]
+    if k in ("ArraySubscriptExpr", "MemberExpr"):
+        return storage_root(cx, func, kids(n)[0], depth + 1)
+    if k == "UnaryOperator" and n.get("opcode") in ("*", "&", "++", "--"):
+        return storage_root(cx, func, kids(n)[0], depth + 1)
+    if k == "BinaryOperator" and n.get("opcode") in ("+", "-"):
+        return storage_root(cx, func, kids(n)[0], depth + 1)
+    if k == "DeclRefExpr":
+        rid = n["ref"]["id"]
+        if n["ref"].get("kind") == "ParmVarDecl":
+            return n["ref"]["name"]
+        d = cx.single_def(rid)
+        if d is not None:
+            d0 = strip(d, casts=True)
+            if d0["kind"] == "CallExpr":
+                return n["ref"]["name"]
+            return storage_root(cx, func, d, depth + 1)
+        # a walking pointer / re-assigned local: all its sources must agree
+        roots = set()
+        srcs = []
+        if cx.inits.get(rid) is not None:
+            srcs.append(cx.inits[rid])
+        for l, r, k_, nd in stores(func):
+            ls = strip(l, casts=True)
+            if ls["kind"] == "DeclRefExpr" and ls["ref"]["id"] == rid and r is not None and k_ == "=":
+                srcs.append(r)
+        for sx in srcs:
+            s0 = strip(sx, casts=True)
+            if s0["kind"] == "CallExpr":
+                roots.add(n["ref"]["name"])
+                continue
+            rr = storage_root(cx, func, sx, depth + 1)
+            if rr == n["ref"]["name"]:
+                continue
+            roots.add(rr)
+        if len(roots) == 1:
+            return next(iter(roots))
+        return n["ref"]["name"] if not srcs else None
+    return None
